@@ -10,6 +10,7 @@ HANDLE_SKIPPED = "sfs::create::runner::Runner::handle_skipped_site"
 CREATE_RUN = "sfs::create::Create::run"
 MAP_SHAPE = "sfs_core::input::sample::Map::shape"
 GET_POP = "sfs_core::input::sample::Map::get_population_id"
+GET_SAMPLE_ID = "sfs_core::input::sample::Map::get_sample_id"
 GENO_RESULT = "sfs_core::input::genotype::Result"
 SITE = "sfs_core::input::site::Site"
 READSTATUS = "sfs_core::input::ReadStatus"
@@ -32,9 +33,12 @@ class ReadSite:
             return
         # the lookup L
         L = an.calls(f, GET_POP)
+        if not L:
+            # the lookup spelled on the map itself (a merged / new accessor of sample::Map inlined here): a keyed read of self.sample_map
+            L = [(b, t) for b, t in f.calls() if self._is_map_lookup(f, t)][:1]
         self.lookup = L
         if len(L) != 1:
-            chk.fail("SHAPE", "read_site/lookup", f.loc(), "expected exactly one call of Map::get_population_id in read_site, found %d" % len(L))
+            chk.fail("SHAPE", "read_site/lookup", f.loc(), "expected exactly one call of Map::get_population_id (or one keyed read of self.sample_map) in read_site, found %d" % len(L))
             return
         self.L_bb = L[0][0]
         # loop header: the Iterator::next call whose Some edge dominates L
@@ -78,6 +82,39 @@ class ReadSite:
         st = f.term(self.sel_sw)
         self.sel_some = an.edge_target(st, 1)
         self.sel_none = an.edge_target(st, 0)
+        # every read-only lookup of the same sample in the sample map (get_population_id, get_sample_id) is a selection test: its Some
+        # edge says the sample is listed.  `let (Some(id), Some(pop)) = (map.get_sample_id(s), map.get_population_id(s)) else { continue }`
+        self.sel_edges = [(self.sel_sw, self.sel_some, self.sel_none)]
+        self.pure_lookup_bbs = {self.L_bb, getattr(self, "wrapper", self.L_bb)}
+        def key_of(op):
+            l_ = op_local(op)
+            if l_ is None:
+                return None
+            return f.resolve_ptr(l_) or (an.origin_local(f, l_), ())
+        key0 = key_of(L[0][1]["args"][1])
+        for b, t in f.calls():
+            if b == self.L_bb or b not in self.region or not (callee_is(t["callee"], GET_POP, GET_SAMPLE_ID) or self._is_map_lookup(f, t)):
+                continue
+            tgt = an.arg_pointee(f, t, 0)
+            k = key_of(t["args"][1])
+            if not (tgt and an.self_field(tgt) == "sample_map" and k is not None and k == key0):
+                if self._is_map_lookup(f, t):
+                    chk.fail("SHAPE", "read_site/lookup-of-another-key", f.loc(b), "a second read of the sample map inside the per-sample loop uses another key than the selection lookup")
+                continue
+            self.pure_lookup_bbs.add(b)
+            cur = b
+            for _ in range(4):
+                sw = an.switches_on_call_result(f, cur)
+                if sw:
+                    st2 = f.term(sw[0][0])
+                    self.sel_edges.append((sw[0][0], an.edge_target(st2, 1), an.edge_target(st2, 0)))
+                    break
+                d = an.call_dest_local(f.term(cur))
+                nxt = [b2 for b2, t2 in f.calls() if t2["args"] and op_local(t2["args"][0]) is not None and f.copy_root(op_local(t2["args"][0])) == d and callee_is(t2["callee"], N.OPT_MAP, N.OPT_COPIED)]
+                if not nxt:
+                    break
+                self.pure_lookup_bbs.add(nxt[0])
+                cur = nxt[0]
         # genotype switch: discriminant of a genotype::Result value inside the loop region
         self.geno_sw = None
         for b, t in f.switches():
@@ -112,6 +149,19 @@ class ReadSite:
             return
         self.proj_sw, self.proj_some, self.proj_none = self.proj_edges[0]
         self.ok = True
+
+    @staticmethod
+    def _is_map_lookup(f, t):
+        """IndexMap::get / get_full / get_index_of / get_key_value / contains_key on (a field of) self.sample_map"""
+        nm = callee_name(t["callee"])
+        if not (nm.startswith("indexmap::map::IndexMap") and nm.split("::")[-1] in ("get", "get_full", "get_index_of", "get_key_value", "contains_key")) or len(t["args"]) != 2:
+            return False
+        tgt = an.arg_pointee(f, t, 0)
+        return bool(tgt and an.self_field(tgt) == "sample_map")
+
+    def selected(self, b):
+        """block b is only reached for a sample that is in the sample map"""
+        return any(an.dominated_by_edge(self.fn, sb, some_t, b) for sb, some_t, none_t in self.sel_edges)
 
     def in_proj(self, b):
         return any(an.dominated_by_edge(self.fn, sb, some_t, b) for sb, some_t, none_t in self.proj_edges)
@@ -191,10 +241,10 @@ def _effects_in_block(f, b, allowed_call_bbs):
 
 def c01a(chk, rs):
     f = rs.fn
-    allowed = {rs.L_bb, getattr(rs, "wrapper", rs.L_bb)}
+    allowed = set(rs.pure_lookup_bbs)
     n = 0
     for b in sorted(rs.region):
-        if an.dominated_by_edge(f, rs.sel_sw, rs.sel_some, b):
+        if rs.selected(b):
             continue
         eff = _effects_in_block(f, b, allowed)
         n += 1
@@ -205,30 +255,51 @@ def c01a(chk, rs):
     for b, fld, t in rs.index_mut_sites():
         chk.saw_calls()
         if b in rs.region:
-            chk.ob("C01.a", "read_site/index_mut(%s)/under-selection" % fld, an.dominated_by_edge(f, rs.sel_sw, rs.sel_some, b), f.loc(b),
+            chk.ob("C01.a", "read_site/index_mut(%s)/under-selection" % fld, rs.selected(b), f.loc(b),
                    "update of self.%s must be dominated by the Some edge of the population lookup" % fld)
-    chk.ob("C01.a", "read_site/genotype-switch/under-selection", an.dominated_by_edge(f, rs.sel_sw, rs.sel_some, rs.geno_sw), f.loc(rs.geno_sw),
+    chk.ob("C01.a", "read_site/genotype-switch/under-selection", rs.selected(rs.geno_sw), f.loc(rs.geno_sw),
            "the match on the genotype must be dominated by the Some edge of the population lookup (an unselected sample's ploidy error or missing call must not matter)")
     # the None edge leads back to the loop header without effects
-    back = f.reachable_from(rs.sel_none, avoid={rs.header})
     eff = []
-    for b in back:
-        eff += _effects_in_block(f, b, set())
-    chk.ob("C01.a", "read_site/continue-edge", (not eff) and rs.header in f.reachable_from(rs.sel_none), f.loc(rs.sel_sw),
+    returns = True
+    for sb_, some_, none_ in rs.sel_edges:
+        back = f.reachable_from(none_, avoid={rs.header})
+        for b in back:
+            eff += _effects_in_block(f, b, set())
+        returns = returns and rs.header in f.reachable_from(none_)
+    chk.ob("C01.a", "read_site/continue-edge", (not eff) and returns, f.loc(rs.sel_sw),
            "the None edge of the lookup must return to the loop header without effects; found %s" % (eff or "nothing"))
 
 
 def c01b(chk, rs):
     f = rs.fn
-    # Standard aggregates
-    is_empty = None
+    # the lists that record a skipped selected sample: the vectors of self pushed onto in the per-sample loop (one list, or one per reason)
+    skip_fields = set()
+    for b, t in f.calls():
+        if callee_is(t["callee"], N.VEC_PUSH) and b in rs.region:
+            tgt = an.arg_pointee(f, t, 0)
+            if tgt and an.self_field(tgt):
+                skip_fields.add(an.self_field(tgt))
+    if not skip_fields:
+        skip_fields = {"skipped_samples"}
+    # is_empty() tests of those lists: field -> [(switch, true target, false targets)]
+    empties = {}
     for b, t in f.calls():
         if callee_is(t["callee"], N.VEC_IS_EMPTY):
             tgt = an.arg_pointee(f, t, 0)
-            if tgt and an.self_field(tgt) == "skipped_samples":
+            fld = an.self_field(tgt) if tgt else None
+            if fld in skip_fields:
                 sw = an.switches_on_call_result(f, b)
-                if sw:
-                    is_empty = (b, sw[0][0])
+                if not sw:
+                    # the answer handed on inside a value (`Ok(self.skipped_samples.is_empty())` from a helper, unwrapped and tested by the caller)
+                    d_ = an.call_dest_local(t)
+                    sw = [(sb_, None) for sb_, st_ in f.switches() if an.switch_subject(f, sb_)["kind"] == "value" and an.switch_subject(f, sb_)["root"] is not None
+                          and an.origin_local(f, an.switch_subject(f, sb_)["root"]) == d_]
+                for sb_, _ in sw:
+                    st = f.term(sb_)
+                    true_t = st["otherwise"] if all(a[0] == 0 for a in st["arms"]) else an.edge_target(st, 1)
+                    empties.setdefault(fld, []).append((sb_, true_t, [x for x in set(f.succ.get(sb_, [])) if x != true_t]))
+    all_false_edges = {(sb_, x) for v in empties.values() for sb_, tt, fts in v for x in fts}
     for b, variant, rv in rs.site_aggregates():
         if variant != "Standard":
             continue
@@ -236,14 +307,10 @@ def c01b(chk, rs):
         if in_proj:
             chk.ob("C01.b", "read_site/Standard@projection-branch", True, f.loc(b), "Site::Standard inside the projection branch is governed by C02.a", nontrivial=False)
             continue
-        ok = False
-        if is_empty is not None:
-            st = f.term(is_empty[1])
-            true_t = st["otherwise"] if all(a[0] == 0 for a in st["arms"]) else an.edge_target(st, 1)
-            ok = an.dominated_by_edge(f, is_empty[1], true_t, b) and rs.in_noproj(b)
+        ok = bool(empties) and rs.in_noproj(b) and all(any(an.dominated_by_edge(f, sb_, tt, b) for sb_, tt, fts in empties.get(fld, [])) for fld in skip_fields)
         chk.ob("C01.b", "read_site/Standard@no-projection/requires-no-skipped-sample", ok, f.loc(b),
-               "without projection Site::Standard must be dominated by the true edge of self.skipped_samples.is_empty() "
-               "(a record with a missing/multiallelic selected sample contributes nothing)")
+               "without projection Site::Standard must be dominated by the true edge of is_empty() of %s "
+               "(a record with a missing/multiallelic selected sample contributes nothing)" % " and of ".join("self.%s" % x for x in sorted(skip_fields)))
     # every site outcome is decided inside one of the two branches of the projection option, and without projection a site is
     # insufficient only if a selected sample was skipped
     for b, variant, rv in rs.site_aggregates():
@@ -252,26 +319,25 @@ def c01b(chk, rs):
                "Site::%s must be constructed either in the projection branch (rules of C02.a) or in the no-projection branch (complete sites only); "
                "an outcome decided before that split bypasses both rule sets" % variant)
         if variant == "InsufficientData" and rs.in_noproj(b):
-            ok = False
-            if is_empty is not None:
-                st = f.term(is_empty[1])
-                true_t = st["otherwise"] if all(a[0] == 0 for a in st["arms"]) else an.edge_target(st, 1)
-                false_ts = [x for x in set(f.succ.get(is_empty[1], [])) if x != true_t]
-                ok = any(an.dominated_by_edge(f, is_empty[1], x, b) for x in false_ts)
+            # with every is_empty() answering true (no false edge taken) the outcome cannot be reached
+            ok = bool(empties) and all(fld in empties for fld in skip_fields) and b not in an.reachable_with_edges_removed(f, rs.loop_none, set(), all_false_edges)
             chk.ob("C01.b", "read_site/InsufficientData@no-projection/requires-a-skipped-sample", ok, f.loc(b),
-                   "without projection a record is insufficient only when self.skipped_samples is not empty: a complete site is counted")
+                   "without projection a record is insufficient only when a skip list (%s) is not empty: a complete site is counted" % sorted(skip_fields))
     # Skipped arm records the sample on every path back to the header
     sk = rs.arm.get("Skipped")
     pushes = set()
     for b, t in f.calls():
         if callee_is(t["callee"], N.VEC_PUSH):
             tgt = an.arg_pointee(f, t, 0)
-            if tgt and an.self_field(tgt) == "skipped_samples":
+            if tgt and an.self_field(tgt) in skip_fields:
                 pushes.add(b)
                 chk.saw_calls()
     ok = sk is not None and bool(pushes) and rs.header not in f.reachable_from(sk, avoid=pushes | {rs.header} - {sk}) if sk is not None else False
     if sk is not None:
-        reach = f.reachable_from(sk, avoid=pushes)
+        # (the arm may first hand its payload on as a value - `Skipped(s) => Err(s)` matched again below: edges of that second match which
+        # need another variant than this arm built are not paths of this arm)
+        dead = an.infeasible_edges_from(f, sk, rs.header)
+        reach = an.reachable_with_edges_removed(f, sk, pushes, dead)
         ok = bool(pushes) and rs.header not in reach and not any(f.term(b)["k"] == "return" for b in reach)
     chk.ob("C01.b", "read_site/Skipped-arm/records-sample", ok, f.loc(sk) if sk is not None else f.loc(),
            "every path from the Skipped arm back to the loop header must pass a push onto self.skipped_samples")
@@ -351,7 +417,7 @@ def sample_loop_exits(chk, rs, rule):
     # the Error arm is not conditional on anything but selection and the genotype itself
     conds = []
     for sb, st in f.switches():
-        if sb in (rs.next_sw, rs.sel_sw, rs.geno_sw):
+        if sb in (rs.next_sw, rs.sel_sw, rs.geno_sw) or sb in [x[0] for x in rs.sel_edges]:
             continue
         for tgt in set(f.succ.get(sb, [])):
             if err_t is not None and an.dominated_by_edge(f, sb, tgt, err_t) and sb in f.reachable_from(rs.loop_some):
@@ -671,13 +737,50 @@ def _c02a_by_facts(chk, rs, its, desc):
         return False
     rows = []
     used = {}
+    # the two count vectors compared as wholes for equality: `totals == project_to` on slices / Counts of equal length (the builder rejects
+    # a projection whose dimension differs, C02.d) is `total == to` for every axis; `!=` / a false `==` says some axis differs
+    whole = []
+    for cb, ct in f.calls():
+        cp = ct["callee"].get("path") or ""
+        if cp not in ("core::cmp::PartialEq::eq", "core::cmp::PartialEq::ne") or len(ct["args"]) != 2:
+            continue
+        tys = " ".join(ct["callee"].get("args", []))
+        if "[usize]" not in tys and "Count" not in tys and "Vec<usize>" not in tys:
+            continue
+        s0, i0 = f.slice_locals(ct["args"][0])
+        s1, i1 = f.slice_locals(ct["args"][1])
+        def is_tot(i_):
+            return ("sfs_core::input::site::reader::Reader", "totals") in i_["fields"] and ("sfs_core::input::site::reader::Reader", "counts") not in i_["fields"]
+        def is_to(i_):
+            return any(callee_is(t_["callee"], "sfs_core::spectrum::project::PartialProjection::project_to") for _, t_ in i_["calls"])
+        if (is_tot(i0) and is_to(i1)) or (is_tot(i1) and is_to(i0)):
+            whole.append((cb, ct, cp.endswith("::eq")))
+            chk.saw_calls()
+    def whole_facts(b):
+        fa_, ex_ = [], []
+        for cb, ct, is_eq in whole:
+            d_ = an.call_dest_local(ct)
+            for sb_, st_ in f.switches():
+                ss_ = an.switch_subject(f, sb_)
+                if ss_["kind"] != "value" or ss_["root"] is None or an.origin_local(f, ss_["root"]) != d_:
+                    continue
+                t_true, t_false = st_["otherwise"], an.edge_target(st_, 0)
+                eq_edge, ne_edge = (t_true, t_false) if is_eq else (t_false, t_true)
+                if an.dominated_by_edge(f, sb_, eq_edge, b):
+                    fa_.append({"it": None, "cmp": EQ, "how": "the two vectors are equal as wholes"})
+                if an.dominated_by_edge(f, sb_, ne_edge, b):
+                    ex_.append({"it": None, "cmp": NE, "how": "the two vectors differ as wholes"})
+        return fa_, ex_
     for b, variant in sites:
         fa = IT.forall_guards(prog, f, its, b)
         ex = IT.exists_guards(prog, f, its, b)
+        wf, we = whole_facts(b)
+        fa, ex = fa + wf, ex + we
         for x in fa + ex:
-            used[id(x["it"])] = x["it"]
+            if x["it"] is not None:
+                used[id(x["it"])] = x["it"]
         rows.append((b, variant, fa, ex))
-    if not used:
+    if not used and not whole:
         return False
     def has(xs, c):
         return [x for x in xs if x["cmp"] == c]
@@ -703,6 +806,7 @@ def _c02a_by_facts(chk, rs, its, desc):
         allc += IT.body_comparisons(it)
     allc = [IT.norm_cmp(c) if len(c) == 3 and c[1] is not None and c[2] is not None else c for c in allc]
     extra = [c for c in allc if c not in (EQ, GE, NE, LT, ("Gt", (0,), (1,)))]
+    allc = allc + [("Eq" if is_eq else "Ne", "whole", "whole") for cb, ct, is_eq in whole]
     chk.ob("C02.a", "fold-closure/no-other-comparison", not extra and 1 <= len(allc) <= 3, f.loc(),
            "the covered-site decision compares (total, to) only; every comparison in the per-pair bodies: %s" % allc)
     for b, variant, rv in rs.site_aggregates():
@@ -1033,30 +1137,50 @@ def c02g(chk):
             else:
                 why = "argument of ln_gamma is not `x + 1.0` (n! = Gamma(n + 1)): %s" % (rvstr(d[3]) if d and d[0] == "assign" else "?")
         chk.ob("C02.g", "ln_factorial/fallback=ln_gamma(x+1)", ok, lf.loc(), "beyond the table ln n! must be ln Gamma(n + 1): " + why)
-        # the table lookup uses x itself as index and takes ln of the entry
+        # the table lookup uses x itself as index: table.get(x as usize), or table[x as usize] (its bounds check is a C17 site)
         gets = [t for b, t in lf.calls() if callee_is(t["callee"], "core::slice::<impl [T]>::get")]
         ok = False
+        how_idx = "no table read found"
         if len(gets) == 1:
             sl, info = lf.slice_locals(gets[0]["args"][1], through_calls=False)
             ok = 1 in sl and not info["binops"]
-        chk.ob("C02.g", "ln_factorial/table-indexed-by-x", ok, lf.loc(), "the table is read at index x (entry i holds i!)")
+            how_idx = "get(x)"
+        elif not gets:
+            idx = [t["msg"]["index"] for b, t in lf.asserts() if t["msg"]["kind"] == "BoundsCheck"]
+            if len(idx) == 1:
+                sl, info = lf.slice_locals(idx[0], through_calls=False)
+                ok = 1 in sl and not info["binops"]
+                how_idx = "table[x]"
+        chk.ob("C02.g", "ln_factorial/table-indexed-by-x", ok, lf.loc(), "the table is read at index x (entry i holds i!): %s" % how_idx)
     pc = chk.fn("sfs_core::utils::factorial::precomputed")
     if pc is not None:
-        ok = False
+        import rules_fact as RF
         # the initialiser handed to get_or_init: a closure, or a function named as a value (`get_or_init(factorial_table)`)
         inits = list(prog.closures_of(pc.path))
         for _, t_ in pc.calls():
             for a_ in t_["args"]:
                 if a_["k"] == "const" and a_.get("fn") and prog.fn(a_["fn"]) is not None and a_["fn"].startswith("sfs_core::utils::"):
                     inits.append(prog.fn(a_["fn"]))
-                    chk.fns_analysed.add(a_["fn"])
+        ok = False
+        stores_ln = None
+        why = "no initialiser of the table found"
         for c in inits:
-            for c2 in [c] + prog.closures_of(c.path):
-                muls = [rv for _, _, _, rv, _ in c2.assigns() if rv["k"] == "binop" and rv["op"] == "Mul"]
-                stores = [p for _, _, p, rv, _ in c2.assigns() if p[1] == (("deref",),)]
-                if len(muls) == 1 and len(stores) == 1:
-                    ok = True
-        chk.ob("C02.g", "precomputed/entry_i=entry_(i-1)*i", ok, pc.loc(), "the table is filled by the running product acc * i")
+            r, w0 = RF.table_fill(prog, c)
+            if r is None:
+                why = w0 if not ok else why
+                continue
+            chk.fns_analysed.add(c.path)
+            chk.fns_analysed.add(r["it"].body.path)
+            ok, stores_ln, why = RF.judge_fill(r)
+            break
+        chk.ob("C02.g", "precomputed/entry_i=entry_(i-1)*i", ok, pc.loc(),
+               "every entry i = 1..MAX of the table is the previous factorial times i, starting from 0! = 1 (read off the fill iteration symbolically): %s" % why)
+        if lf is not None and ok:
+            n_ln = RF.lookup_applies_ln(prog, lf, pc.path)
+            ln_ok = (n_ln == 0) if stores_ln else (n_ln == 1)
+            chk.ob("C02.g", "ln_factorial/ln-taken-exactly-once", ln_ok, lf.loc(),
+                   "ln_factorial(x) = ln(x!): the logarithm is taken either when the table is filled or when it is read, not both and not neither "
+                   "(table stores %s, ln() applied to the value read %d time(s))" % ("ln(i!)" if stores_ln else "i!", n_ln))
     hp = chk.fn(HYPERGEOM)
     if hp is not None:
         form = log_form(prog, hp, {1: ("lin", {1: 1}, 0), 2: ("lin", {2: 1}, 0), 3: ("lin", {3: 1}, 0), 4: ("lin", {4: 1}, 0)})
@@ -1956,9 +2080,24 @@ def c11d(chk):
     fields = [f["name"] for f in adt["variants"][0]["fields"]]
     reviewed = {"reader": "stream cursor (Box<dyn genotype::Reader>)", "sample_map": "never written after construction",
                 "counts": "reset", "totals": "reset", "projection": "scratch zeroed per use", "skipped_samples": "reset"}
+    # a field the review did not know is classified mechanically where that is safe: re-initialised by reset() on every record (C11.b
+    # checked that reset covers it), or never written after the constructor; anything else carries state from one record to the next
+    Z = chk.extra.get("C11_reset") or {}
+    written_anywhere = set()
+    for fn in prog.fn_list:
+        io = fn.impl_of
+        if not io or io.get("self_adt") != SITE_READER or fn.derived:
+            continue
+        for fld_, how_, b_ in an.self_field_writes(prog, fn):
+            written_anywhere.add(fld_)
     for fld in fields:
-        chk.ob("C11.d", "site::Reader/field(%s)/classified" % fld, fld in reviewed, "%s:%d" % (adt["span"]["file"], adt["span"]["line"]),
-               "every field of site::Reader must be classified (reset / cursor / immutable); a new field is reported here (%s)" % reviewed.get(fld, "UNCLASSIFIED"))
+        how = reviewed.get(fld)
+        if how is None and fld in Z:
+            how = "re-initialised by reset(): %s" % Z[fld]
+        if how is None and fld not in written_anywhere:
+            how = "never written after construction"
+        chk.ob("C11.d", "site::Reader/field(%s)/classified" % fld, how is not None, "%s:%d" % (adt["span"]["file"], adt["span"]["line"]),
+               "every field of site::Reader must be classified (reset / cursor / immutable); a new field is reported here (%s)" % (how or "UNCLASSIFIED"))
     f = chk.fn(READ_SITE)
     if f is not None:
         w = {fld for fld, how, b in an.self_field_writes(prog, f)}
@@ -2004,9 +2143,14 @@ def c11e(chk):
     statics = [c for c in prog.consts.values() if c["kind"].startswith("Static")]
     allowed = {"sfs_core::utils::factorial::precomputed::PRECOMPUTED"}
     import re
+    # (the table's cell under another name or in a renamed function is the same cell: one OnceLock<[f64; N]> in utils::factorial,
+    # whose initialiser C02.g reads; it is keyed by what it is)
+    tables = [s for s in statics if s["path"].startswith("sfs_core::utils::factorial::") and re.match(r"^std::sync::(once_lock::)?OnceLock<\[f64; [\w:]+\]>$", s["ty"])]
     for s in statics:
         clap_default = re.match(r"^<sfs::[\w:]+ as clap_builder::derive::Args>::augment_args(_for_update)?::DEFAULT_VALUE$", s["path"]) is not None
-        chk.ob("C11.e", "static(%s)" % s["path"], s["path"] in allowed or clap_default, "%s:%d" % (s["span"]["file"], s["span"]["line"]),
+        is_table = len(tables) == 1 and s is tables[0]
+        key = "sfs_core::utils::factorial::precomputed::PRECOMPUTED" if is_table else s["path"]
+        chk.ob("C11.e", "static(%s)" % key, s["path"] in allowed or clap_default or is_table, "%s:%d" % (s["span"]["file"], s["span"]["line"]),
                "statics must be the input-independent factorial table or clap-derive's default-value cells (type %s)" % s["ty"], nontrivial=not clap_default)
     # interior mutability / sync primitives in workspace ADT fields and locals
     bad = []
